@@ -286,3 +286,43 @@ for _name, _deleted in (("handle_updated_file", False), ("handle_deleted_file", 
     _c.props = ["C09", "C03"]
     _c.args = dict(self=common.workflow_spec(), file=ty.Make(_HFile))
     _c.finish = _follow_finish(_deleted)
+
+
+# ---------------------------------------------------------------- the table covers every external change that can arrive
+
+from vc.report import structural  # noqa: E402
+
+
+@structural("C09/scan/hash_transitions_cover_external_changes", props=["C09", "C05", "C04"],
+            note="update_file_hashes raises ConsistencyError for a (cause, state, hash known) triple that _HASH_TRANSITIONS "
+                 "does not list.  The EXTERNAL cause comes from the watcher and from the scan at start-up (after a kill "
+                 "as well: C05): both hash every attached file that is not PLANNED / VOLATILE and pass on the hashes that "
+                 "changed.  So for every such state the table needs the row 'now present', and -- unless the state never "
+                 "has a stored hash (file_clear_hash: MISSING, PLANNED, VOLATILE), where 'still absent' is no change -- the "
+                 "row 'now absent'.  The sets are read from the real code: _RELEVANT_STATES, the start-up query, the table.")
+def hash_transitions_cover_external_changes():
+    import ast
+
+    HUC = common.enums.HashUpdateCause
+    table = wfmod._HASH_TRANSITIONS
+    relevant = set(wfmod._RELEVANT_STATES) - {FileState.UNDECLARED}  # UNDECLARED exists on detached nodes only
+    # the start-up scan: every attached file whose state is not one of the two bound values
+    _, rf = extract.find_def("stepup/core/startup.py", "rescan_files")
+    src = ast.unparse(rf)
+    scan_ok = "state NOT IN (?, ?) AND NOT detached" in src and "(FileState.PLANNED.value, FileState.VOLATILE.value)" in src
+    out = [("scan/hash_transitions_cover_external_changes/startup_scans_all_but_planned_and_volatile", scan_ok,
+            "rescan_files: state NOT IN (PLANNED, VOLATILE) AND NOT detached")]
+    out.append(("scan/hash_transitions_cover_external_changes/watcher_relevance_is_the_same_set",
+                relevant == set(FileState) - {FileState.PLANNED, FileState.VOLATILE, FileState.UNDECLARED}, str(sorted(s.name for s in relevant))))
+    never_hashed = {FileState.MISSING, FileState.PLANNED, FileState.VOLATILE}
+    for s in sorted(relevant):
+        # UNCONFIRMED goes through the CONFIRMED cause at start-up and through EXTERNAL from the watcher
+        out.append((f"scan/hash_transitions_cover_external_changes/EXTERNAL.{s.name}.present",
+                    (HUC.EXTERNAL, s, True) in table, "row for a file that is on disk now"))
+        if s not in never_hashed:
+            out.append((f"scan/hash_transitions_cover_external_changes/EXTERNAL.{s.name}.absent",
+                        (HUC.EXTERNAL, s, False) in table, "row for a file that is gone now"))
+    for known in (True, False):
+        out.append((f"scan/hash_transitions_cover_external_changes/CONFIRMED.UNCONFIRMED.{'present' if known else 'absent'}",
+                    (HUC.CONFIRMED, FileState.UNCONFIRMED, known) in table, "start-up confirmation of an UNCONFIRMED file"))
+    return out
